@@ -7,6 +7,7 @@ package main
 // injection at every position of an executed path.
 
 import (
+	"fmt"
 	"hash/fnv"
 	"math/rand"
 )
@@ -259,6 +260,23 @@ func keysOfHistory(evs []Event) []skey {
 	return keys
 }
 
+// scriptForGenerated rebuilds the script of a generated scenario from its configuration
+func scriptForGenerated(cfg EngineCfg) *hashScript {
+	var seed uint64
+	fmt.Sscanf(cfg.GenSeed, "%d", &seed)
+	p := paramsFor(cfg.GenMode)
+	s := newHashScript(seed, p, cfg)
+	if len(cfg.OvKey) == 4 {
+		k := skey{cfg.OvKey[0], cfg.OvKey[1], cfg.OvKey[2], cfg.OvPhase, cfg.OvKey[3]}
+		if cfg.OvKind == "err" {
+			s.override[k] = func(o Outcome) Outcome { o.Out = "err"; o.Nil = false; return o }
+		} else {
+			s.override[k] = func(o Outcome) Outcome { o.Cancel = true; return o }
+		}
+	}
+	return s
+}
+
 // genEngineScenarios produces count base scenarios (and, in the *enum modes, one
 // derived scenario per position of the base execution) and runs them.
 func genEngineScenarios(seed int64, count int, mode string, emit func(cfg EngineCfg, src string, evs []Event)) {
@@ -266,12 +284,12 @@ func genEngineScenarios(seed int64, count int, mode string, emit func(cfg Engine
 	p := paramsFor(mode)
 	for i := 0; i < count; i++ {
 		cfg := genEngineCfg(r, p)
-		sseed := r.Uint64()
-		script := newHashScript(sseed, p, cfg)
-		evs, _ := runEngineScenario(cfg, script)
-		cfgK := cfg
-		assignKinds(&cfgK)
-		emit(cfgK, "gen:"+mode, evs)
+		cfg.GenSeed = fmt.Sprintf("%d", r.Uint64())
+		cfg.GenMode = mode
+		cfg.Outs = []string{"ok", "err", "nil", "eres"}
+		assignKinds(&cfg)
+		evs, _ := runEngineScenario(cfg, scriptForGenerated(cfg))
+		emit(cfg, "gen:"+mode, evs)
 		if mode != "faultenum" && mode != "cancelenum" {
 			continue
 		}
@@ -283,21 +301,19 @@ func genEngineScenarios(seed int64, count int, mode string, emit func(cfg Engine
 		}
 		for j := 0; j < len(keys); j += step {
 			k := keys[j]
-			s2 := newHashScript(sseed, p, cfg)
-			if mode == "faultenum" {
-				s2.override[k] = func(o Outcome) Outcome { o.Out = "err"; o.Nil = false; return o }
-			} else {
-				s2.override[k] = func(o Outcome) Outcome { o.Cancel = true; return o }
-			}
 			cfg2 := cfg
-			if mode == "cancelenum" {
+			cfg2.OvKey = []int{k.Run, k.Node, k.Visit, k.K}
+			cfg2.OvPhase = k.Phase
+			if mode == "faultenum" {
+				cfg2.OvKind = "err"
+			} else {
+				cfg2.OvKind = "cancel"
 				cfg2.Cancel = true
 				if (i+j)%2 == 0 {
 					cfg2.CtxKind = "deadline"
 				}
 			}
-			evs2, _ := runEngineScenario(cfg2, s2)
-			assignKinds(&cfg2)
+			evs2, _ := runEngineScenario(cfg2, scriptForGenerated(cfg2))
 			emit(cfg2, "gen:"+mode, evs2)
 		}
 	}
